@@ -28,7 +28,7 @@ def plan(tier, seed):
     return {
         "level": "exploration",
         "rule": "(a) the table (container x argument position 0..3 x compound kind x option set): containers = call, fn-position, vector, list, set, map key/value, recur args, "
-        "method call target/args (.m / . form), constructor (new / Class.), let* inits, loop* inits, def init, if test, do body; compounds = if, let*, do, try/finally, try/catch, "
+        "method call target/args (.m / . form), host field access on a call target (.-f / . x -f) also as the test of an if, constructor (new / Class.), let* inits, loop* inits, def init, if test, do body; compounds = if, let*, do, try/finally, try/catch, "
         "loop*, letfn*, immediate fn call, compound nested in a plain call; (b) random programs with tracers on about half of the sub-expressions, 2 contexts x 2 option sets each; "
         "(c) exhaustive small programs with every sub-expression traced; (d) every core Var with a callable :inline (enumerated at run time) called with traced arguments, inlining on/off. "
         "distinct = distinct (program text, option set); non-trivial = at least two tracer calls in the program.",
@@ -60,7 +60,7 @@ def compounds(base):
     }
 
 
-CONTAINERS = ["call", "fnpos", "vec", "list", "set", "mapkey", "mapval", "recur", "fnrecur", "fnrecur-do", "method", "dotform", "target", "new", "ctor", "letinit", "loopinit", "def", "iftest", "dobody", "throwarg"]
+CONTAINERS = ["call", "fnpos", "vec", "list", "set", "mapkey", "mapval", "recur", "fnrecur", "fnrecur-do", "method", "dotform", "target", "field", "field2", "iftest-field", "iftest-field2", "iftest-method", "new", "ctor", "letinit", "loopinit", "def", "iftest", "dobody", "throwarg"]
 
 
 def build_cell(container, pos, ckind):
@@ -102,6 +102,14 @@ def build_cell(container, pos, ckind):
     if container == "target":
         tgt = ("do", [comp, ("local", "o")])
         return ("icall", "method", [tgt, T(1), T(2), T(3)])
+    if container in ("field", "field2"):
+        # host field access on a compound target, among plain siblings
+        return ("prim", "vector", [T(1), ("icall", container, [("t", 11, ("do", [comp, ("local", "o")]))]), T(3)])
+    if container in ("iftest-field", "iftest-field2", "iftest-method"):
+        # the test of an if is itself a host field access / method call whose target is a compound form
+        tgt = ("t", 11, ("do", [comp, ("local", "o")]))  # a call: evaluating the target twice shows in the trace
+        test = ("icall", "method", [tgt, T(1)]) if container == "iftest-method" else ("icall", "field2" if container.endswith("2") else "field", [tgt])
+        return ("if", test, T(7), T(8))
     if container == "new":
         return ("icall", "new", args)
     if container == "ctor":
@@ -152,7 +160,7 @@ def worker(spec, out):
 
     kind = spec["kind"]
     if kind == "table":
-        cells = [(c, p, k) for c in CONTAINERS for p in range(4) for k in compounds(10) if not (c == "target" and p > 0)]
+        cells = [(c, p, k) for c in CONTAINERS for p in range(4) for k in compounds(10) if not (c in ("target", "field", "field2", "iftest-field", "iftest-field2", "iftest-method") and p > 0)]
         out.setx("table_cells", len(cells))
         for ci in range(spec["part"], len(cells), spec["parts"]):
             container, pos, ckind = cells[ci]
